@@ -91,7 +91,8 @@ ModelReported == (RealRec = ModelRec /\ (qr = DEAD) = (qm = DEAD))
 StateSame(i, q) == LET r == Items[i].dfa[q] m == Models[i][q] IN
                    /\ r.en = m.en /\ r.un = m.un /\ r.rec = m.rec /\ r.tr = [s \in 1..Items[i].K |-> m.tr[s]]
 StaticProblems(i) ==
-  IF Len(Items[i].dfa) # Len(Models[i]) THEN <<"size-used", Len(Items[i].dfa), Len(Models[i])>>
+  IF Len(Items[i].dfa) > Items[i].pred THEN <<"capacity", Len(Items[i].dfa), Items[i].pred>>      \* C12: sum of Terms::dfa_size suffices
+  ELSE IF Len(Items[i].dfa) # Len(Models[i]) THEN <<"size-used", Len(Items[i].dfa), Len(Models[i])>>
   ELSE LET d == {q \in 1..Len(Models[i]) : ~StateSame(i, q)} IN
        IF d = {} THEN <<>> ELSE <<"state", (CHOOSE q \in d : TRUE) - 1>>
 StaticReported == wit # <<>> \/ StaticProblems(px) = <<>> \/ PrintT(<<"LXSTATIC", ToJson([id |-> Items[px].id, why |-> StaticProblems(px)])>>)
